@@ -10,12 +10,14 @@
 (*  - name/directory mode: the renamer insists on the parent of the source, the destination key is a  *)
 (*    sibling of the source key -- for generated names and for custom paths typed at the prompt;      *)
 (*  - path mode, destination not a symbolic link: the key is what the containment test resolved;      *)
-(*  - path mode, destination IS a symbolic link: the test looked at the link's target, rename(2)      *)
-(*    replaces the link itself, wherever it lies ([override_link_destination_escapes] below), so      *)
-(*    the theorem needs: every symbolic link lies at or below an input directory;                     *)
+(*  - path mode, destination IS a symbolic link: [contained] looked at the link's target, rename(2)   *)
+(*    replaces the link itself, wherever it lies ([override_link_destination_escapes] below: the     *)
+(*    code before the repair of F34).  The test on the directory of the destination entry           *)
+(*    ([dest_parent_contained]) closes the gap: the key rename(2) uses is realpath(parent) ++ [last], *)
+(*    which lies below the input directory;                                                          *)
 (*  - path mode, custom path: no test at all ([custom_path_escapes_refuted]).                         *)
 From Tempren Require Import Base.Str Py.PathLib Py.PathLibProofs FS.Model FS.Lemmas FS.RealpathAgree FS.DirExt
-  FS.PlainPaths Pipe.Pipeline Pipe.Confine Pipe.Confined Pipe.ConfinedMove Pipe.Safety Pipe.DryEqualsReal
+  FS.PlainPaths Pipe.Pipeline Pipe.DestParent Pipe.Confine Pipe.Confined Pipe.ConfinedMove Pipe.Safety Pipe.DryEqualsReal
   Pipe.ConfinedRun.
 Open Scope N_scope.
 
@@ -232,6 +234,7 @@ Proof.
     destruct (generate (c_mode c) f r) as [np|ex]; [|intros E; inversion E; subst; exact H].
     destruct (ppath_eqb np (pf_rel f)); [apply IH; exact H|].
     destruct (contained (c_var c) (w_fs w) f np) as [[|]|]; try (intros E; inversion E; subst; exact H).
+    destruct (dest_parent_test (c_var c) (w_fs w) f np) as [[|]|]; try (intros E; inversion E; subst; exact H).
     destruct (parents_contained (w_fs w) f np) as [[|]|]; try (intros E; inversion E; subst; exact H).
     destruct (source_contained (w_fs w) f) as [[|]|]; try (intros E; inversion E; subst; exact H).
     destruct (renamer c w cwd1 (pf_rel f) np false) as [w1 [e1|]] eqn:R;
@@ -497,6 +500,23 @@ Proof.
     destruct (walk_found_det _ _ _ _ _ _ _ _ _ _ A R) as [X _]. rewrite E, X. reflexivity.
 Qed.
 
+(* the key of an EXISTING destination entry (the one a replacing rename removes; the last component is not
+   followed): realpath(all but the last component) ++ [last component], below the input directory once the
+   test on the directory of the destination entry said yes (F34) *)
+Lemma dest_key_inside s f np dp dn :
+  chdir s (pf_dir f) = Some (pf_dir f) ->
+  dest_parent_contained s f np = Some true ->
+  bad_last (to_upath np) = false ->
+  resolve s (pf_dir f) (to_upath np) false = WFound dp dn ->
+  is_prefix_path (pf_dir f) dp = true.
+Proof.
+  intros Hc Dc Hb R.
+  assert (Hne : pp_parts np <> []).
+  { destruct (bad_last_false_snoc _ Hb) as [Ep _]. rewrite Ep. intros K. apply app_eq_nil in K as [_ K]. discriminate K. }
+  rewrite (dest_parent_contained_as_source s f np Hne) in Dc.
+  exact (source_key_inside s (as_source f np) dp dn Hc (source_contained_inside _ _ Dc) Hb R).
+Qed.
+
 (* ---------- the renamer with override, or with a custom path, on a later tree than the one the tests saw ------- *)
 Section Step2.
 Variable D : list rpath.
@@ -505,6 +525,7 @@ Hypothesis HdD : In (pf_dir f) D.
 Hypothesis Ct : contained fixed s1 f dst = Some true.
 Hypothesis Pc : parents_contained s1 f dst = Some true.
 Hypothesis Sc : source_contained s1 f = Some true.
+Hypothesis Dc : dest_parent_contained s1 f dst = Some true.
 
 (* what is known about the key rename(2) uses for the destination path [u] *)
 Definition dest_ok (sx : fs) (u : upath) : Prop :=
@@ -576,8 +597,6 @@ Proof.
   - intros dp dn Rd. left. destruct (F _ _ Hbd Rd) as [c2 ->]. apply prefix_snoc; exact Pq.
 Qed.
 
-Definition links_below (sn : fs) : Prop := forall k i t, lookup sn k = Some (NLink i t) -> below_some D k.
-
 Lemma tested_follow_inside sn sx dp dn :
   still_valid D f s1 sn -> dir_ext sn sx ->
   resolve sx (pf_dir f) (to_upath dst) true = WFound dp dn -> is_prefix_path (pf_dir f) dp = true.
@@ -587,18 +606,23 @@ Proof.
   apply contained_true_prefix. exact Ct.
 Qed.
 
-(* path mode, the generated path itself *)
+(* path mode, the generated path itself.  A destination that does not exist yet: the key is what [contained]
+   resolved.  One that exists: rename(2) does not follow a symbolic link in the last component, so the key is
+   realpath(all but the last component) ++ [last component]: what [dest_parent_contained] resolved (F34) *)
 Lemma dest_ok_tested sn sx :
-  still_valid D f s1 sn -> links_below sn -> dir_ext sn sx -> dest_ok sx (to_upath dst).
+  still_valid D f s1 sn -> dir_ext sn sx -> bad_last (to_upath dst) = false -> dest_ok sx (to_upath dst).
 Proof.
-  intros SV LB E. pose proof SV as [Hc0 [RP _]]. pose proof (chdir_dir_ext _ _ _ E Hc0) as Hc. split.
+  intros SV E Hbd. pose proof SV as [Hc0 [RP _]]. pose proof (chdir_dir_ext _ _ _ E Hc0) as Hc. split.
   - intros dpar dname Rd. rewrite <- (dest_realpath _ _ _ _ _ Hc Rd). rewrite (realpath_raw_dir_ext _ _ _ _ E), RP.
     apply contained_true_prefix; exact Ct.
-  - intros dp dn Rd. destruct (is_link_node dn) eqn:Ln.
-    + right. split; [reflexivity|]. destruct dn as [j|j tg|]; try discriminate.
-      apply resolve_found in Rd. apply (LB dp j tg).
-      destruct (E dp) as [K|[_ K]]; [rewrite <- K; exact Rd | rewrite K in Rd; discriminate].
-    + left. apply (tested_follow_inside sn sx dp dn SV E). apply resolve_nofollow_found_follow; assumption.
+  - intros dp dn Rd. left.
+    assert (Hne : pp_parts dst <> []).
+    { destruct (bad_last_false_snoc _ Hbd) as [Ep _]. rewrite Ep. intros K. apply app_eq_nil in K as [_ K]. discriminate K. }
+    assert (Hs : source_inside sx (as_source f dst)).
+    { unfold source_inside. rewrite (realpath_raw_dir_ext _ _ _ _ E), RP.
+      apply source_contained_inside. rewrite <- (dest_parent_contained_as_source s1 f dst Hne). exact Dc. }
+    destruct (source_key_split sx (as_source f dst) dp dn Hc Hs Hbd Rd) as [q [c [-> Pq]]].
+    apply prefix_snoc. exact Pq.
 Qed.
 
 (* path mode, shutil.move into an existing directory: destination / name of the source *)
@@ -641,7 +665,7 @@ Qed.
 (* FileMover with override: no guard, mkdir -p, shutil.move *)
 Lemma file_mover_override_wstep2 flt w w' e :
   file_mover fixed flt w (pf_dir f) (pf_rel f) dst true = (w', e) ->
-  wstep2 (still_valid D f s1 (w_fs w) /\ links_below (w_fs w)) D w w'.
+  wstep2 (still_valid D f s1 (w_fs w)) D w w'.
 Proof.
   rewrite file_mover_override_unfold.
   destruct (mkdir_p (S (length (pp_parts dst))) flt w (pf_dir f) (pp_parent dst)) as [w1 r1] eqn:MP.
@@ -649,19 +673,17 @@ Proof.
   { intros Hp. left. apply (parents_contained_ndi _ _ _ Pc Hp). }
   destruct (mkdir_p_wstep D f s1 HdD _ _ _ _ _ _ _ (dir_ext_refl _) Hn MP) as [E1 C1].
   apply wstep_wstep2 in C1.
-  assert (C1' : wstep2 (still_valid D f s1 (w_fs w) /\ links_below (w_fs w)) D w w1)
-    by (apply (wstep2_weaken _ _ _ _ _ (fun x => proj1 x) C1)).
   destruct r1 as [e1|]; [intros H; inversion H; subst; assumption|].
   destruct (sys flt CMove w1 (shutil_move_fs (w_fs w1) (pf_dir f) (to_upath (pf_rel f)) (to_upath dst))) as [w2 e2] eqn:Sy.
   intros H. assert (Ew : w2 = w') by (destruct e2; inversion H; reflexivity). subst w2. clear H.
-  apply (wstep2_trans _ _ _ _ _ C1').
-  apply (wstep2_sys _ _ _ _ _ _ _ _ Sy). intros s' R [SV LB].
+  apply (wstep2_trans _ _ _ _ _ C1).
+  apply (wstep2_sys _ _ _ _ _ _ _ _ Sy). intros s' R SV.
   pose proof (chdir_dir_ext _ _ _ E1 (proj1 SV)) as Hc.
   pose proof (still_valid_source _ _ SV E1) as Hs.
   assert (Plain : forall s2, os_rename (w_fs w1) (pf_dir f) (to_upath (pf_rel f)) (to_upath dst) = SOk s2 ->
                              fs_step2 D (w_fs w1) s2).
   { intros s2 R2. eapply rename_any_step; [exact Hc | exact Hs | | exact R2].
-    intros _ _ q c sn0 _ _. exact (dest_ok_tested _ _ SV LB E1). }
+    intros _ Hbd q c sn0 _ _. exact (dest_ok_tested _ _ SV E1 Hbd). }
   destruct (shutil_move_cases _ _ _ _ _ R) as [R1|[Hd R2]]; [apply Plain; exact R1|].
   eapply rename_any_step; [exact Hc | exact Hs | | exact R2].
   intros Hb _ q c sn0 _ _. apply (dest_ok_into_dir _ _ _ SV E1); [|exact Hd].
@@ -672,7 +694,7 @@ Qed.
 Lemma renamer_any_wstep2 c w dst' o w' e :
   c_var c = fixed -> (dst' = dst \/ c_mode c <> MPath) ->
   renamer c w (pf_dir f) (pf_rel f) dst' o = (w', e) ->
-  wstep2 (still_valid D f s1 (w_fs w) /\ (c_mode c = MPath -> o = true -> links_below (w_fs w))) D w w'.
+  wstep2 (still_valid D f s1 (w_fs w)) D w w'.
 Proof.
   intros Hv Hdst. unfold renamer, renamer_core. rewrite Hv.
   destruct (c_dry c).
@@ -684,19 +706,18 @@ Proof.
   - destruct (c_mode c) eqn:Cm.
     + destruct (file_renamer fixed (c_fault c) w (pf_dir f) (pf_rel f) dst' o) as [w1 [e1|]] eqn:Dr;
         intros H; inversion H; subst; [|apply wstep2_add_report];
-        exact (wstep2_weaken _ _ _ _ _ (fun x => proj1 x) (file_renamer_any_wstep2 _ _ _ _ _ _ Dr)).
+        exact (file_renamer_any_wstep2 _ _ _ _ _ _ Dr).
     + destruct Hdst as [->|K]; [|contradiction K; reflexivity].
       destruct o.
       * destruct (file_mover fixed (c_fault c) w (pf_dir f) (pf_rel f) dst true) as [w1 [e1|]] eqn:Dr;
           intros H; inversion H; subst; [|apply wstep2_add_report];
-          exact (wstep2_weaken _ _ _ _ _ (fun x => conj (proj1 x) (proj2 x eq_refl eq_refl)) (file_mover_override_wstep2 _ _ _ _ Dr)).
+          exact (file_mover_override_wstep2 _ _ _ _ Dr).
       * destruct (file_mover fixed (c_fault c) w (pf_dir f) (pf_rel f) dst false) as [w1 [e1|]] eqn:Dr;
           intros H; inversion H; subst; [|apply wstep2_add_report];
-          exact (wstep2_weaken _ _ _ _ _ (fun x => proj1 x)
-                   (wstep_wstep2 _ _ _ _ (file_mover_wstep D f dst s1 HdD Ct Pc Sc _ _ _ _ Dr))).
+          exact (wstep_wstep2 _ _ _ _ (file_mover_wstep D f dst s1 HdD Ct Pc Sc _ _ _ _ Dr)).
     + destruct (file_renamer fixed (c_fault c) w (pf_dir f) (pf_rel f) dst' o) as [w1 [e1|]] eqn:Dr;
         intros H; inversion H; subst; [|apply wstep2_add_report];
-        exact (wstep2_weaken _ _ _ _ _ (fun x => proj1 x) (file_renamer_any_wstep2 _ _ _ _ _ _ Dr)).
+        exact (file_renamer_any_wstep2 _ _ _ _ _ _ Dr).
 Qed.
 
 End Step2.
@@ -722,8 +743,6 @@ Definition overriding (c : cfg) : Prop :=
 Section Run2.
 Variables (c : cfg) (D : list rpath) (s : fs).       (* s: the initial tree *)
 Hypothesis Hv : c_var c = fixed.
-(* path mode with override: every symbolic link lies at or below an input directory *)
-Hypothesis LK : c_mode c = MPath -> overriding c -> forall k i t, lookup s k = Some (NLink i t) -> below_some D k.
 (* path mode: no custom path is typed at the prompt *)
 Hypothesis NC : c_mode c = MPath -> c_strategy c = Manual -> Forall (fun a => parse_answer a <> ACustom) (c_answers c).
 
@@ -783,27 +802,23 @@ Proof.
     + apply (good_changes2 _ Hc G). rewrite Hf. apply hd_in.
 Qed.
 
-(* the renamer, called for a file whose three tests said yes on an earlier state: with the generated path (any
+(* the renamer, called for a file whose four tests said yes on an earlier state: with the generated path (any
    override flag), or -- outside path mode -- with any path *)
 Lemma renamer_tracked2 f dst s1 dst' o cwd1 w w1 e1 :
   tracked2 w -> In (pf_dir f) D -> In s1 (w_hist w ++ [s]) ->
   contained fixed s1 f dst = Some true -> parents_contained s1 f dst = Some true ->
-  source_contained s1 f = Some true ->
+  source_contained s1 f = Some true -> dest_parent_contained s1 f dst = Some true ->
   (Forall (good D s) (w_hist w ++ [s]) -> cwd1 = pf_dir f) ->
-  (dst' = dst \/ c_mode c <> MPath) -> (o = true -> overriding c) ->
+  (dst' = dst \/ c_mode c <> MPath) ->
   renamer c w cwd1 (pf_rel f) dst' o = (w1, e1) ->
   tracked2 w1 /\ exists l, w_hist w1 = l ++ w_hist w.
 Proof.
-  intros Tw HfD Hs1 Ct Pc Sc Hc Hdst Ho Rn.
+  intros Tw HfD Hs1 Ct Pc Sc Dc Hc Hdst Rn.
   assert (St : wstep2 (Forall (good D s) (w_hist w ++ [s])) D w w1).
   { destruct (rpath_eqb cwd1 (pf_dir f)) eqn:Ec.
     - apply rpath_eqb_eq in Ec. subst cwd1.
-      eapply wstep2_weaken; [|exact (renamer_any_wstep2 D f dst s1 HfD Ct Pc Sc c w dst' o w1 e1 Hv Hdst Rn)].
-      intros G. split; [apply good_still_valid2; assumption|].
-      intros Cm Eo k i t L. apply (LK Cm (Ho Eo) k i t).
-      rewrite Forall_forall in G. destruct (G (w_fs w)) as [_ SL].
-      { rewrite (proj1 Tw). apply hd_in. }
-      apply (SL k i t). exact L.
+      eapply wstep2_weaken; [|exact (renamer_any_wstep2 D f dst s1 HfD Ct Pc Sc Dc c w dst' o w1 e1 Hv Hdst Rn)].
+      intros G. apply good_still_valid2; assumption.
     - apply (wstep2_weaken False); [|exact (wstep_wstep2 _ _ _ _ (renamer_shape D _ _ _ _ _ _ _ _ Rn))].
       intros G. rewrite (Hc G), rpath_eqb_refl in Ec. discriminate. }
   split; [exact (tracked2_wstep2 _ _ _ Tw St (fun x => x))|].
@@ -813,44 +828,42 @@ Qed.
 Lemma resolve_conflict_tracked2 f dst s1 cwd1 w w' e :
   tracked2 w -> In (pf_dir f) D -> In s1 (w_hist w ++ [s]) ->
   contained fixed s1 f dst = Some true -> parents_contained s1 f dst = Some true ->
-  source_contained s1 f = Some true ->
+  source_contained s1 f = Some true -> dest_parent_contained s1 f dst = Some true ->
   (Forall (good D s) (w_hist w ++ [s]) -> cwd1 = pf_dir f) -> answers_within c w ->
   resolve_conflict c w cwd1 (pf_rel f) dst = (w', e) ->
   tracked2 w' /\ (exists l, w_hist w' = l ++ w_hist w) /\ answers_within c w'.
 Proof.
-  intros Tw HfD Hs1 Ct Pc Sc Hc AW. unfold resolve_conflict.
+  intros Tw HfD Hs1 Ct Pc Sc Dc Hc AW. unfold resolve_conflict.
   assert (RS : forall st w0, tracked2 w0 -> w_fs w0 = w_fs w -> w_hist w0 = w_hist w -> answers_within c w0 ->
-              (st = Override -> overriding c) ->
               resolve_simple c st w0 cwd1 (pf_rel f) dst = (w', e) ->
               tracked2 w' /\ (exists l, w_hist w' = l ++ w_hist w) /\ answers_within c w').
-  { intros st w0 T0 F0 H0 AW0 Ov. destruct st; simpl;
+  { intros st w0 T0 F0 H0 AW0. destruct st; simpl;
       try (intros E; inversion E; subst; split; [exact T0|]; split; [exists []; exact H0 | exact AW0]).
     intros Rn.
     assert (Hs1' : In s1 (w_hist w0 ++ [s])) by (rewrite H0; exact Hs1).
     assert (Hc' : Forall (good D s) (w_hist w0 ++ [s]) -> cwd1 = pf_dir f) by (rewrite H0; exact Hc).
-    destruct (renamer_tracked2 f dst s1 dst true cwd1 w0 w' e T0 HfD Hs1' Ct Pc Sc Hc' (or_introl eq_refl)
-                (fun _ => Ov eq_refl) Rn) as [T1 [l Hl]].
+    destruct (renamer_tracked2 f dst s1 dst true cwd1 w0 w' e T0 HfD Hs1' Ct Pc Sc Dc Hc' (or_introl eq_refl) Rn)
+      as [T1 [l Hl]].
     split; [exact T1|]. split; [exists l; rewrite Hl, H0; reflexivity|].
     intros a Ha. apply AW0. rewrite <- (renamer_answers _ _ _ _ _ _ _ _ Rn). exact Ha. }
   destruct (c_strategy c) eqn:Cs.
-  - apply RS; auto. discriminate.
-  - apply RS; auto. discriminate.
-  - apply RS; auto. intros _. left. exact Cs.
+  - apply RS; auto.
+  - apply RS; auto.
+  - apply RS; auto.
   - destruct (prompt (S (length (w_answers w))) w) as [d w1] eqn:P.
     destruct (prompt_props _ _ _ _ P) as [A [B [C0 [Dd NM]]]].
     assert (T1 : tracked2 w1) by (unfold tracked2; rewrite A, B; exact Tw).
     assert (AW1 : answers_within c w1) by (intros a Ha; apply AW, C0, Ha).
     destruct d as [st|p|].
-    + apply RS; auto. intros ->. right. split; [exact Cs|].
-      destruct (Dd eq_refl) as [a [Ha Pa]]. exists a. split; [apply AW; exact Ha | exact Pa].
+    + apply RS; auto.
     + intros Rn.
       assert (Nm : c_mode c <> MPath).
       { intros Cm. destruct (prompt_custom _ _ _ _ P) as [a [Ha Pa]].
         pose proof (NC Cm eq_refl) as F. rewrite Forall_forall in F. exact (F a (AW a Ha) Pa). }
       assert (Hs1' : In s1 (w_hist w1 ++ [s])) by (rewrite B; exact Hs1).
       assert (Hc' : Forall (good D s) (w_hist w1 ++ [s]) -> cwd1 = pf_dir f) by (rewrite B; exact Hc).
-      destruct (renamer_tracked2 f dst s1 (parse_path p) false cwd1 w1 w' e T1 HfD Hs1' Ct Pc Sc Hc' (or_intror Nm)
-                  (fun K => False_ind _ (Bool.diff_false_true K)) Rn) as [T2 [l Hl]].
+      destruct (renamer_tracked2 f dst s1 (parse_path p) false cwd1 w1 w' e T1 HfD Hs1' Ct Pc Sc Dc Hc' (or_intror Nm) Rn)
+        as [T2 [l Hl]].
       split; [exact T2|]. split; [exists l; rewrite Hl, B; reflexivity|].
       intros a Ha. apply AW1. rewrite <- (renamer_answers _ _ _ _ _ _ _ _ Rn). exact Ha.
     + intros E; inversion E; subst. split; [exact T1|]. split; [exists []; exact B | exact AW1].
@@ -863,7 +876,7 @@ Proof.
   induction bl as [|[[d src] dst] rest IH]; intros w cwd w' cwd' e Tw Hbl AW.
   - intros H. inversion H; subst. exact Tw.
   - cbn [second_pass]. rewrite Hv. cbn [fixed v_backlog_chdir].
-    destruct (Forall_inv Hbl) as [f [dst0 [s1 [E [HfD [Hs1 [Ct [Pc Sc]]]]]]]].
+    destruct (Forall_inv Hbl) as [f [dst0 [s1 [E [HfD [Hs1 [Ct [Pc [Sc Dc]]]]]]]]].
     pose proof (Forall_inv_tail Hbl) as Hrest.
     inversion E; subst d src dst0. clear E.
     destruct (chdir (w_fs w) (pf_dir f)) as [cwd1|] eqn:Hc; [|intros H; inversion H; subst; exact Tw].
@@ -872,8 +885,8 @@ Proof.
     { intros G. rewrite Forall_forall in G. destruct (G (w_fs w)) as [G1 _].
       { rewrite (proj1 Tw). apply hd_in. }
       rewrite (G1 _ HfD) in Hc. inversion Hc; reflexivity. }
-    destruct (renamer_tracked2 f dst s1 dst false cwd1 w w1 e1 Tw HfD Hs1 Ct Pc Sc Hcw (or_introl eq_refl)
-                (fun K => False_ind _ (Bool.diff_false_true K)) Rn) as [Tw1 [l Hl]].
+    destruct (renamer_tracked2 f dst s1 dst false cwd1 w w1 e1 Tw HfD Hs1 Ct Pc Sc Dc Hcw (or_introl eq_refl) Rn)
+      as [Tw1 [l Hl]].
     pose proof (renamer_answers _ _ _ _ _ _ _ _ Rn) as A1.
     assert (Hbl1 : bl_ok D s (w_hist w1) rest) by (rewrite Hl; apply bl_ok_ext; exact Hrest).
     assert (AW1 : answers_within c w1) by (intros a Ha; apply AW; rewrite <- A1; exact Ha).
@@ -884,7 +897,7 @@ Proof.
     { rewrite Hl, <- app_assoc. apply in_or_app. right. exact Hs1. }
     assert (Hcw1 : Forall (good D s) (w_hist w1 ++ [s]) -> cwd1 = pf_dir f).
     { intros G. apply Hcw. rewrite Hl, <- app_assoc in G. exact (proj2 (proj1 (Forall_app _ _ _) G)). }
-    destruct (resolve_conflict_tracked2 f dst s1 cwd1 w1 w2 e2 Tw1 HfD Hs1' Ct Pc Sc Hcw1 AW1 RC) as [Tw2 [[l2 Hl2] AW2]].
+    destruct (resolve_conflict_tracked2 f dst s1 cwd1 w1 w2 e2 Tw1 HfD Hs1' Ct Pc Sc Dc Hcw1 AW1 RC) as [Tw2 [[l2 Hl2] AW2]].
     destruct e2 as [ex2|]; [intros H; inversion H; subst; exact Tw2|].
     apply IH; [exact Tw2 | rewrite Hl2; apply bl_ok_ext; exact Hbl1 | exact AW2].
 Qed.
@@ -892,31 +905,16 @@ Qed.
 End Run2.
 
 (* ---------- the run ---------------------------------------------------------------------------------------------------- *)
-(* path mode, override possible: every symbolic link of the initial tree lies at or below an input directory *)
-Definition links_inside (c : cfg) (plan : list (pfile * rendered)) (s : fs) : Prop :=
-  c_mode c = MPath -> overriding c ->
-  forall k i t, In (k, NLink i t) s -> exists f r, In (f, r) plan /\ is_prefix_path (pf_dir f) k = true.
-
 (* path mode: no "custom path" answer at the manual prompt *)
 Definition no_custom_in_path_mode (c : cfg) : Prop :=
   c_mode c = MPath -> c_strategy c = Manual -> Forall (fun a => parse_answer a <> ACustom) (c_answers c).
 
-Lemma links_inside_lookup c plan s :
-  links_inside c plan s ->
-  c_mode c = MPath -> overriding c -> forall k i t, lookup s k = Some (NLink i t) -> below_some (plan_dirs plan) k.
-Proof.
-  intros LI Cm Ov k i t L. destruct k as [|x k]; [discriminate|].
-  assert (Hne : x :: k <> []) by discriminate.
-  destruct (LI Cm Ov (x :: k) i t (lookup_In _ _ _ Hne L)) as [f [r [Hin P]]].
-  exists (pf_dir f). split; [exact (plan_dirs_in _ _ _ Hin) | exact P].
-Qed.
-
 Lemma run_tracked2 c plan cwd s :
-  c_var c = fixed -> links_inside c plan s -> no_custom_in_path_mode c ->
+  c_var c = fixed -> no_custom_in_path_mode c ->
   exists wF, r_final (run c plan cwd s) = w_fs wF /\ r_states (run c plan cwd s) = rev (w_hist wF) /\
              tracked2 (plan_dirs plan) s wF.
 Proof.
-  intros Hv LI NC. unfold run.
+  intros Hv NC. unfold run.
   assert (T0 : tracked (plan_dirs plan) s (init_world s (c_answers c))) by (split; [reflexivity | exact I]).
   assert (B0 : bl_ok (plan_dirs plan) s (w_hist (init_world s (c_answers c))) []) by constructor.
   destruct (first_pass c plan (init_world s (c_answers c)) cwd []) as [[[w1 cwd1] bl] e1] eqn:FP.
@@ -926,27 +924,27 @@ Proof.
   - exists w1. simpl. auto.
   - destruct (second_pass c bl w1 cwd1) as [[w2 cwd2] e2] eqn:SP. exists w2. simpl.
     split; [reflexivity|]. split; [reflexivity|].
-    apply (second_pass_tracked2 c (plan_dirs plan) s Hv (links_inside_lookup c plan s LI) NC bl w1 cwd1 w2 cwd2 e2 T1 B1);
+    apply (second_pass_tracked2 c (plan_dirs plan) s Hv NC bl w1 cwd1 w2 cwd2 e2 T1 B1);
       [|exact SP].
     intros a Ha. rewrite A1 in Ha. exact Ha.
 Qed.
 
 (* every state of the run is reached from the initial tree by a chain of confined steps *)
 Theorem run_is_chain2 c plan cwd s :
-  c_var c = fixed -> links_inside c plan s -> no_custom_in_path_mode c -> run_good c plan cwd s ->
+  c_var c = fixed -> no_custom_in_path_mode c -> run_good c plan cwd s ->
   exists l, r_states (run c plan cwd s) = rev l /\ r_final (run c plan cwd s) = hd s l /\ chain2 (plan_dirs plan) s l.
 Proof.
-  intros Hv LI NC G. destruct (run_tracked2 c plan cwd s Hv LI NC) as [wF [F [St [Hf Hc]]]].
+  intros Hv NC G. destruct (run_tracked2 c plan cwd s Hv NC) as [wF [F [St [Hf Hc]]]].
   exists (w_hist wF). split; [exact St|]. split; [rewrite F; exact Hf|].
   apply (cchain2_chain2 _ _ _ Hc). unfold run_good in G. rewrite St in G.
   apply Forall_rev in G. cbn [rev] in G. rewrite rev_involutive in G. exact G.
 Qed.
 
 Theorem every_state_confined2 c plan cwd s :
-  c_var c = fixed -> links_inside c plan s -> no_custom_in_path_mode c -> run_good c plan cwd s ->
+  c_var c = fixed -> no_custom_in_path_mode c -> run_good c plan cwd s ->
   forall h, In h (r_final (run c plan cwd s) :: r_states (run c plan cwd s)) -> changes_in (plan_dirs plan) s h.
 Proof.
-  intros Hv LI NC G h Hin. destruct (run_is_chain2 c plan cwd s Hv LI NC G) as [l [St [F C]]].
+  intros Hv NC G h Hin. destruct (run_is_chain2 c plan cwd s Hv NC G) as [l [St [F C]]].
   assert (K : In h (l ++ [s])).
   { destruct Hin as [<-|Hin]; [rewrite F; apply hd_in|]. rewrite St in Hin. apply in_or_app. left. apply in_rev. exact Hin. }
   apply in_app_or in K as [K|[<-|[]]]; [exact (chain2_changes _ _ _ C _ K) | apply changes_in_refl].
@@ -1063,11 +1061,11 @@ Proof.
 Qed.
 
 Theorem static_run_good2 c plan cwd s :
-  c_var c = fixed -> links_inside c plan s -> no_custom_in_path_mode c -> WF s -> plan_static plan s ->
+  c_var c = fixed -> no_custom_in_path_mode c -> WF s -> plan_static plan s ->
   run_good c plan cwd s.
 Proof.
-  intros Hv LI NC W [S1 [S2 S3]].
-  destruct (run_tracked2 c plan cwd s Hv LI NC) as [wF [F [St [Hf Hc]]]].
+  intros Hv NC W [S1 [S2 S3]].
+  destruct (run_tracked2 c plan cwd s Hv NC) as [wF [F [St [Hf Hc]]]].
   pose proof (run_WF_hist c plan cwd s wF W St) as Wl.
   unfold run_good. rewrite St.
   pose proof (plan_dirs_antichain plan S2) as A.
@@ -1085,15 +1083,15 @@ Proof.
 Qed.
 
 Theorem links_stable_run_good2 c plan cwd s :
-  c_var c = fixed -> links_inside c plan s -> no_custom_in_path_mode c -> WF s ->
+  c_var c = fixed -> no_custom_in_path_mode c -> WF s ->
   (forall f r, In (f, r) plan -> chdir s (pf_dir f) = Some (pf_dir f)) ->
   (forall f r f' r', In (f, r) plan -> In (f', r') plan ->
      is_prefix_path (pf_dir f) (pf_dir f') = true -> pf_dir f = pf_dir f') ->
   Forall (same_links s) (r_states (run c plan cwd s)) ->
   run_good c plan cwd s.
 Proof.
-  intros Hv LI NC W S1 S2 SL.
-  destruct (run_tracked2 c plan cwd s Hv LI NC) as [wF [F [St [Hf Hc]]]].
+  intros Hv NC W S1 S2 SL.
+  destruct (run_tracked2 c plan cwd s Hv NC) as [wF [F [St [Hf Hc]]]].
   pose proof (run_WF_hist c plan cwd s wF W St) as Wl.
   unfold run_good. rewrite St in *.
   pose proof (plan_dirs_antichain plan S2) as A.
@@ -1116,8 +1114,6 @@ Qed.
 
 Theorem run_confined_any_strategy c plan cwd s :
   c_var c = fixed -> WF s ->
-  (c_mode c = MPath -> overriding c ->
-   forall k i t, In (k, NLink i t) s -> exists f r, In (f, r) plan /\ is_prefix_path (pf_dir f) k = true) ->
   (c_mode c = MPath -> c_strategy c = Manual -> Forall (fun a => parse_answer a <> ACustom) (c_answers c)) ->
   (forall f r, In (f, r) plan -> chdir s (pf_dir f) = Some (pf_dir f)) ->
   (forall f r f' r', In (f, r) plan -> In (f', r') plan ->
@@ -1127,15 +1123,13 @@ Theorem run_confined_any_strategy c plan cwd s :
     (In (k, n) (r_final (run c plan cwd s)) /\ ~ In (k, n) s) \/ (In (k, n) s /\ ~ In (k, n) (r_final (run c plan cwd s))) ->
     exists f r, In (f, r) plan /\ is_prefix_path (pf_dir f) k = true.
 Proof.
-  intros Hv W LI NC S1 S2 SL. apply confined_of_changes.
-  apply (every_state_confined2 c plan cwd s Hv LI NC (links_stable_run_good2 c plan cwd s Hv LI NC W S1 S2 SL)).
+  intros Hv W NC S1 S2 SL. apply confined_of_changes.
+  apply (every_state_confined2 c plan cwd s Hv NC (links_stable_run_good2 c plan cwd s Hv NC W S1 S2 SL)).
   left. reflexivity.
 Qed.
 
 Theorem every_state_confined_any_strategy c plan cwd s :
   c_var c = fixed -> WF s ->
-  (c_mode c = MPath -> overriding c ->
-   forall k i t, In (k, NLink i t) s -> exists f r, In (f, r) plan /\ is_prefix_path (pf_dir f) k = true) ->
   (c_mode c = MPath -> c_strategy c = Manual -> Forall (fun a => parse_answer a <> ACustom) (c_answers c)) ->
   (forall f r, In (f, r) plan -> chdir s (pf_dir f) = Some (pf_dir f)) ->
   (forall f r f' r', In (f, r) plan -> In (f', r') plan ->
@@ -1145,30 +1139,28 @@ Theorem every_state_confined_any_strategy c plan cwd s :
     (In (k, n) h /\ ~ In (k, n) s) \/ (In (k, n) s /\ ~ In (k, n) h) ->
     exists f r, In (f, r) plan /\ is_prefix_path (pf_dir f) k = true.
 Proof.
-  intros Hv W LI NC S1 S2 SL h Hh. apply confined_of_changes.
-  apply (every_state_confined2 c plan cwd s Hv LI NC (links_stable_run_good2 c plan cwd s Hv LI NC W S1 S2 SL)).
+  intros Hv W NC S1 S2 SL h Hh. apply confined_of_changes.
+  apply (every_state_confined2 c plan cwd s Hv NC (links_stable_run_good2 c plan cwd s Hv NC W S1 S2 SL)).
   right. exact Hh.
 Qed.
 
 Theorem run_confined_static_any_strategy c plan cwd s :
   c_var c = fixed -> WF s -> plan_static plan s ->
-  (c_mode c = MPath -> overriding c ->
-   forall k i t, In (k, NLink i t) s -> exists f r, In (f, r) plan /\ is_prefix_path (pf_dir f) k = true) ->
   (c_mode c = MPath -> c_strategy c = Manual -> Forall (fun a => parse_answer a <> ACustom) (c_answers c)) ->
   forall h, In h (r_final (run c plan cwd s) :: r_states (run c plan cwd s)) -> forall k n,
     (In (k, n) h /\ ~ In (k, n) s) \/ (In (k, n) s /\ ~ In (k, n) h) ->
     exists f r, In (f, r) plan /\ is_prefix_path (pf_dir f) k = true.
 Proof.
-  intros Hv W PS LI NC h Hh. apply confined_of_changes.
-  exact (every_state_confined2 c plan cwd s Hv LI NC (static_run_good2 c plan cwd s Hv LI NC W PS) h Hh).
+  intros Hv W PS NC h Hh. apply confined_of_changes.
+  exact (every_state_confined2 c plan cwd s Hv NC (static_run_good2 c plan cwd s Hv NC W PS) h Hh).
 Qed.
 
 (* every state of such a run is reached by a chain of steps: new directory, re-keying, rename onto itself, replacing rename *)
 Theorem run_is_chain_any_strategy c plan cwd s :
-  c_var c = fixed -> WF s -> plan_static plan s -> links_inside c plan s -> no_custom_in_path_mode c ->
+  c_var c = fixed -> WF s -> plan_static plan s -> no_custom_in_path_mode c ->
   exists l, r_states (run c plan cwd s) = rev l /\ r_final (run c plan cwd s) = hd s l /\ chain2 (plan_dirs plan) s l.
 Proof.
-  intros Hv W PS LI NC. exact (run_is_chain2 c plan cwd s Hv LI NC (static_run_good2 c plan cwd s Hv LI NC W PS)).
+  intros Hv W PS NC. exact (run_is_chain2 c plan cwd s Hv NC (static_run_good2 c plan cwd s Hv NC W PS)).
 Qed.
 
 (* the theorems of Pipe/ConfinedRun.v are the special case [no_override c] *)
@@ -1259,11 +1251,13 @@ Proof.
   intros [H|[H|[H|[H|[H|[]]]]]]; discriminate H.
 Qed.
 
-(* ---------- why path mode with override needs "every symbolic link lies at or below an input directory" ------------------ *)
+(* ---------- why the directory of the destination entry has to be tested too (F34) ------------------------------------------ *)
 (* /in, /in/a (1), /out, /out/l -> /in/z.  Plan (path mode): a -> "../out/l".  Path.resolve() follows the link /out/l:
    the containment test sees /in/z and accepts; the destination exists (as a link), so the rename is deferred; under
    override shutil.move renames onto the path itself: the link /out/l, outside the input directory, is replaced by the
-   file.  The tree is well-formed, plan_static holds (the link is not below /in), no link moves *)
+   file.  The tree is well-formed, plan_static holds (the link is not below /in), no link moves.  This is the code
+   BEFORE the repair ([pre_f34]: no test on the directory of the destination entry); the current code refuses the
+   file: [override_link_destination_refused] *)
 Definition lk_z : name := [122].
 Definition lk_fs : fs :=
   [([n_in], NDir); ([n_in; n_a], NFile 1); ([cr_out], NDir);
@@ -1280,26 +1274,41 @@ Proof.
       (destruct Hk as [Hk|[Hk|[Hk|[Hk|[]]]]]; inversion Hk; subst; vm_compute; reflexivity).
 Qed.
 
+Definition co_cfg_v (v : variant) (m : mode) (st : strategy) (answers : list str) : cfg :=
+  {| c_mode := m; c_strategy := st; c_dry := false; c_answers := answers; c_fault := None; c_var := v |}.
+
 Example override_link_destination_escapes :
   WF lk_fs /\ plan_static lk_plan lk_fs /\
-  contained fixed lk_fs (cr_file [n_a]) (parse_path lk_dst) = Some true /\
-  (let r := run (co_cfg MPath Override []) lk_plan [] lk_fs in (r_status r, r_final r, r_calls r)) =
+  contained pre_f34 lk_fs (cr_file [n_a]) (parse_path lk_dst) = Some true /\
+  (let r := run (co_cfg_v pre_f34 MPath Override []) lk_plan [] lk_fs in (r_status r, r_final r, r_calls r)) =
   (0%Z,
    [([n_in], NDir); ([cr_out; cr_l], NFile 1); ([cr_out], NDir)],
    [(CMkdir, CErr); (CMove, COk)]) /\
   is_prefix_path [n_in] [cr_out; cr_l] = false /\
   (* without override the run stops at the conflict and nothing has changed *)
-  (let r := run (co_cfg MPath Stop []) lk_plan [] lk_fs in (r_status r, r_final r, r_calls r)) = (1%Z, lk_fs, []).
+  (let r := run (co_cfg_v pre_f34 MPath Stop []) lk_plan [] lk_fs in (r_status r, r_final r, r_calls r)) = (1%Z, lk_fs, []).
 Proof.
   split; [apply WfCheck.wf_b_sound; vm_compute; reflexivity|]. split; [exact lk_static|].
   split; [vm_compute; reflexivity|]. split; [vm_compute; reflexivity|]. split; [reflexivity | vm_compute; reflexivity].
 Qed.
 
-(* path mode with override where the theorem applies: no symbolic link outside the input directory *)
+(* the same tree and plan with the current code: [contained] still says yes (it follows the link), the test on the
+   directory of the destination entry says no (/out is not below /in): InvalidDestinationError, status 1, nothing
+   touched -- under override and under every other strategy (the refusal comes before the renamer is called) *)
+Example override_link_destination_refused :
+  contained fixed lk_fs (cr_file [n_a]) (parse_path lk_dst) = Some true /\
+  dest_parent_contained lk_fs (cr_file [n_a]) (parse_path lk_dst) = Some false /\
+  (let r := run (co_cfg MPath Override []) lk_plan [] lk_fs in (r_error r, r_status r, r_final r, r_calls r, r_report r)) =
+  (Some ExInvalidDest, 1%Z, lk_fs, [], []) /\
+  (let r := run (co_cfg MPath Stop []) lk_plan [] lk_fs in (r_error r, r_status r, r_final r, r_calls r, r_report r)) =
+  (Some ExInvalidDest, 1%Z, lk_fs, [], []).
+Proof. repeat split; vm_compute; reflexivity. Qed.
+
+(* path mode with override where the theorem applies: an unselected file is replaced *)
 Definition po_fs : fs := [([n_in], NDir); ([n_in; n_a], NFile 1); ([n_in; n_b], NFile 2); ([cr_out], NDir)].
 
 Example override_path_mode_applies :
-  WF po_fs /\ plan_static co_plan po_fs /\ links_inside (co_cfg MPath Override []) co_plan po_fs /\
+  WF po_fs /\ plan_static co_plan po_fs /\
   no_custom_in_path_mode (co_cfg MPath Override []) /\
   (let r := run (co_cfg MPath Override []) co_plan [] po_fs in (r_status r, r_final r, r_calls r)) =
   (0%Z, [([n_in], NDir); ([n_in; n_b], NFile 1); ([cr_out], NDir)], [(CMkdir, CErr); (CMove, COk)]).
@@ -1310,7 +1319,6 @@ Proof.
     - intros f r f' r' [H|[]] [H'|[]] _; inversion H; inversion H'; subst; reflexivity.
     - intros k i t f r Hk [H|[]]; inversion H; subst;
         (destruct Hk as [Hk|[Hk|[Hk|[Hk|[]]]]]; inversion Hk). }
-  split. { intros _ _ k i t [H|[H|[H|[H|[]]]]]; inversion H. }
   split. { intros _ H. discriminate H. }
   vm_compute. reflexivity.
 Qed.
